@@ -193,8 +193,10 @@ def _resugar(n):
             lp = strip(lp)
             inner = lp["body"]["e"] if lp["body"].get("e") is not None else lp["body"]["stmts"][0]["e"]
             inner = strip(inner)
-            some = [a for a in inner["arms"] if a["pat"].get("k") == "ptstruct"][0]
-            return {"k": "for", "pat": some["pat"]["ps"][0], "iter": iter_expr, "body": some["body"],
+            some = [a for a in inner["arms"] if a["pat"].get("k") in ("ptstruct", "pstruct")
+                    and a["pat"].get("def", "").endswith("Some")][0]
+            spat = some["pat"]["ps"][0] if some["pat"]["k"] == "ptstruct" else some["pat"]["fields"][0]["pat"]
+            return {"k": "for", "pat": spat, "iter": iter_expr, "body": some["body"],
                     "id": lp.get("id"), "sp": n.get("sp"), "ty": "()",
                     "into_iter": it.get("f", {}).get("inst") if it.get("k") == "call" else None}
         except (KeyError, IndexError, TypeError):
